@@ -89,3 +89,298 @@ func firstDiff(a, b []byte) string {
 }
 
 var _ = sort.Strings
+
+// ---- spec-level stand-ins: the emitted documents against the fixture's annotations ----
+
+type specDoc map[string]any
+
+func loadSpec(t *testing.T, version string) specDoc {
+	_, spec, err := genInto(t, t.TempDir(), func(cfg map[string]any) {
+		cfg["openapiGeneratorConfig"].(map[string]any)["openapi"] = version
+	})
+	if err != nil {
+		t.Fatalf("generation failed for %s: %v", version, err)
+	}
+	var doc specDoc
+	if jerr := json.Unmarshal(spec, &doc); jerr != nil {
+		t.Fatalf("spec is not JSON: %v", jerr)
+	}
+	return doc
+}
+
+func dig(v any, path ...string) any {
+	for _, p := range path {
+		if sd, isDoc := v.(specDoc); isDoc {
+			v = map[string]any(sd)
+		}
+		m, ok := v.(map[string]any)
+		if !ok {
+			return nil
+		}
+		v = m[p]
+	}
+	return v
+}
+
+func strs(v any) []string {
+	var out []string
+	if l, ok := v.([]any); ok {
+		for _, x := range l {
+			out = append(out, fmt.Sprint(x))
+		}
+	}
+	sort.Strings(out)
+	return out
+}
+
+// what the fixture's annotations say (written from the source, not from the generator)
+type wantOp struct {
+	verb, path, opID, tag string
+	deprecated            bool
+	security              string // canonical "scheme[scope,scope]|..." per alternative
+	params                []string // "name:in:required"
+	body                  string   // "" or "required"/"optional"
+	success               string
+	errors                []string
+}
+
+var wantOps = []wantOp{
+	{"post", "/alpha/items/{id}", "CreateAlpha", "Alpha", false, "schemeA[read]", []string{"id:path:true", "limit:query:false", "x-trace:header:true"}, "required", "201", []string{"404"}},
+	{"delete", "/alpha/items/{id}", "DeleteAlpha", "Alpha", true, "schemeB[admin,write]", []string{"id:path:true"}, "", "204", nil},
+	{"put", "/beta/things", "UpdateBeta", "Beta", false, "schemeD[read]", nil, "required", "200", nil},
+	{"get", "/beta/things", "ListBeta", "Beta", false, "schemeD[read]", []string{"filter:query:true"}, "", "200", nil},
+}
+
+func checkOperations(doc specDoc, version string, report func(class, msg string)) {
+	paths, _ := doc["paths"].(map[string]any)
+	seen := map[string]bool{}
+	for p, item := range paths {
+		for verb := range item.(map[string]any) {
+			seen[verb+" "+p] = true
+		}
+	}
+	for _, w := range wantOps {
+		key := w.verb + " " + w.path
+		if !seen[key] {
+			report("C01-operation-missing", fmt.Sprintf("%s: %s is annotated and not hidden but not documented", version, key))
+			continue
+		}
+		delete(seen, key)
+		op := dig(doc, "paths", w.path, w.verb)
+		if got := fmt.Sprint(dig(op, "operationId")); got != w.opID {
+			report("C01-operation-id", fmt.Sprintf("%s: %s operationId %q, want %q", version, key, got, w.opID))
+		}
+		if got := strs(dig(op, "tags")); fmt.Sprint(got) != fmt.Sprint([]string{w.tag}) {
+			report("C01-tag", fmt.Sprintf("%s: %s tags %v, want [%s]", version, key, got, w.tag))
+		}
+		dep, _ := dig(op, "deprecated").(bool)
+		if dep != w.deprecated {
+			report("C01-deprecated", fmt.Sprintf("%s: %s deprecated=%v, want %v", version, key, dep, w.deprecated))
+		}
+		// security
+		var alts []string
+		if l, ok := dig(op, "security").([]any); ok {
+			for _, alt := range l {
+				var comps []string
+				for name, sc := range alt.(map[string]any) {
+					comps = append(comps, name+"["+strings.Join(strs(sc), ",")+"]")
+				}
+				sort.Strings(comps)
+				alts = append(alts, strings.Join(comps, "&"))
+			}
+		}
+		if got := strings.Join(alts, "|"); got != w.security {
+			report("C04-operation-security", fmt.Sprintf("%s: %s security %q, want %q", version, key, got, w.security))
+		}
+		// parameters in signature order
+		var params []string
+		if l, ok := dig(op, "parameters").([]any); ok {
+			for _, p := range l {
+				req, _ := dig(p, "required").(bool)
+				params = append(params, fmt.Sprintf("%v:%v:%v", dig(p, "name"), dig(p, "in"), req))
+			}
+		}
+		if fmt.Sprint(params) != fmt.Sprint(w.params) {
+			report("C06-parameters", fmt.Sprintf("%s: %s parameters %v, want %v", version, key, params, w.params))
+		}
+		body := ""
+		if rb := dig(op, "requestBody"); rb != nil {
+			body = "optional"
+			if req, _ := dig(rb, "required").(bool); req {
+				body = "required"
+			}
+		}
+		if body != w.body {
+			report("C06-request-body", fmt.Sprintf("%s: %s requestBody %q, want %q", version, key, body, w.body))
+		}
+		var codes []string
+		if rs, ok := dig(op, "responses").(map[string]any); ok {
+			for c := range rs {
+				codes = append(codes, c)
+			}
+		}
+		sort.Strings(codes)
+		// kin-openapi's NewResponses() seeds a "default" entry in 3.0 documents; it is not an annotated code
+		// (the 3.0/3.1 difference it causes is reported under C11)
+		var annotated []string
+		for _, c := range codes {
+			if c != "default" {
+				annotated = append(annotated, c)
+			}
+		}
+		codes = annotated
+		want := append([]string{w.success}, w.errors...)
+		sort.Strings(want)
+		if fmt.Sprint(codes) != fmt.Sprint(want) {
+			report("C06-responses", fmt.Sprintf("%s: %s responses %v, want %v", version, key, codes, want))
+		}
+	}
+	for extra := range seen {
+		report("C01-operation-extra", fmt.Sprintf("%s: %s is documented but not annotated (or hidden)", version, extra))
+	}
+}
+
+func checkComponents(doc specDoc, version string, report func(class, msg string)) {
+	schemas, _ := dig(doc, "components", "schemas").(map[string]any)
+	var names []string
+	for n := range schemas {
+		names = append(names, n)
+	}
+	sort.Strings(names)
+	if want := []string{"AlphaBody", "BetaBody", "Rank", "Rfc7807Error"}; fmt.Sprint(names) != fmt.Sprint(want) {
+		report("C07-component-set", fmt.Sprintf("%s: components %v, want %v", version, names, want))
+	}
+	if got, want := strs(dig(schemas["Rank"], "enum")), []string{"high", "low", "mid"}; fmt.Sprint(got) != fmt.Sprint(want) {
+		report("C07-enum-values-depend-on-usage", fmt.Sprintf("%s: component Rank.enum = %v, want the declared constants %v (a usage-site validate tag must not rewrite the shared component)", version, got, want))
+	}
+	props := func(name string) []string {
+		var out []string
+		if m, ok := dig(schemas[name], "properties").(map[string]any); ok {
+			for k := range m {
+				out = append(out, k)
+			}
+		}
+		sort.Strings(out)
+		return out
+	}
+	if got, want := props("AlphaBody"), []string{"name", "rank"}; fmt.Sprint(got) != fmt.Sprint(want) {
+		report("C07-properties", fmt.Sprintf("%s: AlphaBody properties %v, want %v", version, got, want))
+	}
+	if got, want := props("BetaBody"), []string{"count", "note", "rank"}; fmt.Sprint(got) != fmt.Sprint(want) {
+		report("C07-properties", fmt.Sprintf("%s: BetaBody properties %v, want %v", version, got, want))
+	}
+	if got, want := strs(dig(schemas["AlphaBody"], "required")), []string{"name"}; fmt.Sprint(got) != fmt.Sprint(want) {
+		report("C07-required", fmt.Sprintf("%s: AlphaBody required %v, want %v", version, got, want))
+	}
+	var schemes []string
+	if m, ok := dig(doc, "components", "securitySchemes").(map[string]any); ok {
+		for k := range m {
+			schemes = append(schemes, k)
+		}
+	}
+	sort.Strings(schemes)
+	if want := []string{"schemeA", "schemeB", "schemeD"}; fmt.Sprint(schemes) != fmt.Sprint(want) {
+		report("C04-security-schemes", fmt.Sprintf("%s: securitySchemes %v, want %v", version, schemes, want))
+	}
+}
+
+func TestVerifSpecAgainstAnnotations(t *testing.T) {
+	fails := map[string]string{}
+	report := func(class, msg string) {
+		if _, dup := fails[class]; !dup {
+			fails[class] = msg
+		}
+	}
+	docs := map[string]specDoc{}
+	for _, v := range []string{"3.0.0", "3.1.0"} {
+		docs[v] = loadSpec(t, v)
+		checkOperations(docs[v], v, report)
+		checkComponents(docs[v], v, report)
+	}
+	// C11: the two documents describe the same API, aspect by aspect
+	aspects := func(doc specDoc) map[string]string {
+		out := map[string]string{}
+		paths, _ := map[string]any(doc)["paths"].(map[string]any)
+		for p, item := range paths {
+			for verb, op := range item.(map[string]any) {
+				key := verb + " " + p
+				out["operationId "+key] = fmt.Sprint(dig(op, "operationId"))
+				out["tags "+key] = fmt.Sprint(strs(dig(op, "tags")))
+				out["deprecated "+key] = fmt.Sprint(dig(op, "deprecated") == true)
+				out["security "+key] = fmt.Sprint(dig(op, "security"))
+				var ps []string
+				if l, ok := dig(op, "parameters").([]any); ok {
+					for _, prm := range l {
+						ps = append(ps, fmt.Sprintf("%v:%v:%v:%v", dig(prm, "name"), dig(prm, "in"), dig(prm, "required") == true, dig(prm, "schema", "type")))
+					}
+				}
+				out["parameters "+key] = fmt.Sprint(ps)
+				out["requestBody "+key] = fmt.Sprint(dig(op, "requestBody") != nil, dig(op, "requestBody", "required") == true)
+				var codes []string
+				if rs, ok := dig(op, "responses").(map[string]any); ok {
+					for c := range rs {
+						codes = append(codes, c)
+					}
+				}
+				sort.Strings(codes)
+				out["responseCodes "+key] = fmt.Sprint(codes)
+			}
+		}
+		schemas, _ := dig(doc, "components", "schemas").(map[string]any)
+		for n, sc := range schemas {
+			out["schema.type "+n] = fmt.Sprint(dig(sc, "type"))
+			out["schema.enum "+n] = fmt.Sprint(strs(dig(sc, "enum")))
+			out["schema.required "+n] = fmt.Sprint(strs(dig(sc, "required")))
+			var props []string
+			if m, ok := dig(sc, "properties").(map[string]any); ok {
+				for k, pv := range m {
+					props = append(props, fmt.Sprintf("%s:%v:%v", k, dig(pv, "type"), dig(pv, "$ref")))
+				}
+			}
+			sort.Strings(props)
+			out["schema.properties "+n] = fmt.Sprint(props)
+		}
+		return out
+	}
+	a30, a31 := aspects(docs["3.0.0"]), aspects(docs["3.1.0"])
+	keys := map[string]bool{}
+	for k := range a30 {
+		keys[k] = true
+	}
+	for k := range a31 {
+		keys[k] = true
+	}
+	var ks []string
+	for k := range keys {
+		ks = append(ks, k)
+	}
+	sort.Strings(ks)
+	for _, k := range ks {
+		if a30[k] != a31[k] {
+			aspect := strings.Fields(k)[0]
+			if aspect == "responseCodes" && strings.ReplaceAll(a30[k], " default", "") == a31[k] {
+				aspect = "responseCodes-default-entry"
+			}
+			report("C11-"+aspect, fmt.Sprintf("%s: 3.0.0 has %s, 3.1.0 has %s", k, a30[k], a31[k]))
+		}
+	}
+	want := os.Getenv("VERIF_PROPERTY")
+	n := 0
+	var classes []string
+	for c := range fails {
+		classes = append(classes, c)
+	}
+	sort.Strings(classes)
+	for _, c := range classes {
+		if want != "" && !strings.HasPrefix(c, want+"-") {
+			continue
+		}
+		n++
+		fmt.Printf("VERIF-FAIL: class=%s %s\n", c, strings.ReplaceAll(fails[c], "\n", " ; "))
+	}
+	fmt.Printf("VERIF-CASES: %d (operations x 2 OpenAPI versions on the fixture project)\n", len(wantOps)*2)
+	fmt.Println("VERIF-DONE")
+	if n > 0 {
+		t.Fail()
+	}
+}
